@@ -162,6 +162,15 @@ macro_rules! routes_kind {
         if format!("{}", o) != s { bad.push("owned_display") }
         if format!("{:?}", o) != format!("{:?}", s) { bad.push("owned_debug") }
         if o.clone().as_bytes() != b { bad.push("clone") }
+        {
+            // the second use of a buffer: `clone_from` over a value of another shape, both ways
+            let mut x: $O = o.clone();
+            let mut y: $O = o.clone();
+            x.clone_from(&y);
+            if x.as_bytes() != b { bad.push("clone_from_self") }
+            y.clone_from(&x);
+            if y.as_bytes() != b || y.as_bytes() != o.as_bytes() { bad.push("clone_from") }
+        }
         if o.clone().into_string() != s { bad.push("into_string") }
         if String::from(o.clone()) != s { bad.push("from_string") }
         if serde_json::to_string(v).ok() != serde_json::to_string(s).ok() { bad.push("serde") }
@@ -554,6 +563,18 @@ pub fn dataurl(b: &[u8]) -> Option<String> {
                 let js = serde_json::to_string(s).unwrap();
                 chk!(bad, true, "views(json_owned)", same(serde_json::from_str::<DataUrlBuf>(&js).ok()));
                 chk!(bad, true, "views(clone)", same(Some(o0.clone())));
+                // the second use of a buffer: `clone_from` over values of other layouts, both ways
+                for other in ["data:,", "data:text/plain,hi", "data:;base64,aGVsbG8=", "data:a/b;x=1;base64,QQ==", "data:application/octet-stream,"] {
+                    let ot = DataUrlBuf::new(other.as_bytes().to_vec()).ok();
+                    if let Some(ot) = ot {
+                        let mut x = ot.clone();
+                        x.clone_from(o0);
+                        chk!(bad, true, "views(clone_from)", views(&x) == want && x.as_str() == o0.as_str());
+                        let mut y = o0.clone();
+                        y.clone_from(&ot);
+                        chk!(bad, true, "views(clone_from back)", views(&y) == views(&ot) && y.as_str() == other);
+                    }
+                }
             }
             chk!(bad, acc, "from_string", t(DataUrlBuf::from_string(s.to_string()).ok().as_ref().map(|v| v.as_str().as_bytes())));
             chk!(bad, acc, "TryFrom<String>", t(DataUrlBuf::try_from(s.to_string()).ok().as_ref().map(|v| v.as_str().as_bytes())));
